@@ -429,7 +429,7 @@ func Config(c absd.Cfg, l Layout, rng *rand.Rand) (yaml string, cli []string) {
 			add(opt, opt+": "+yq(v)+"\n")
 		}
 	}
-	if c.Fault != "notypes" {
+	if c.Fault != "notypes" && c.Fault != "emptytypes" {
 		twoList("types", "types", c.Types)
 	}
 	twoList("exclude_fields", "exclude_fields", c.Exclude)
